@@ -116,3 +116,37 @@ Print Assumptions C12_run_x_erase.
 Print Assumptions C12_tree_inv_reachable_with_readonly.
 Print Assumptions C12_navigation_agrees_reachable_with_readonly.
 Print Assumptions C12_readonly_example.
+
+(** ** Histories with insertions of a merged text node of the text-expanded view (Model/DomMergedArg.v, defect D68
+    repaired by /repo aa36908): [append_child] / [insert_before] / [replace_child] whose new child is the node
+    [child_nodes()] hands out for a run of Text / CDATA / reference children are refused (or cannot be written) and
+    change nothing ([C12_merged_argument_world_unchanged]); a history [yop] that mixes them with the calls of the
+    earlier sections ends in the world of the history without them ([C12_run_y_erase]), so the tree invariant and the
+    navigation clauses hold along it. *)
+From XmlRs Require Import Model.DomMergedArg Proofs.DomMergedArg.
+
+Theorem C12_merged_argument_world_unchanged : forall w o, fst (step_mx w o) = w.
+Proof. exact step_mx_world. Qed.
+
+Theorem C12_run_y_erase : forall ops w, run_y w ops = run_x w (xops_of ops).
+Proof. exact run_y_erase. Qed.
+
+Theorem C12_tree_inv_reachable_with_merged_argument : forall init ys, WInv init -> WInv (run_y init ys).
+Proof. exact tree_inv_reachable_with_merged_argument. Qed.
+
+Theorem C12_navigation_agrees_reachable_with_merged_argument :
+  forall init ys k s, WInv init -> doc_at (run_y init ys) k = Some s -> NavAgree s.
+Proof. exact navigation_agrees_reachable_with_merged_argument. Qed.
+
+(** non-trivial instance (Proofs/DomMergedArg.v: fourteen calls on two documents with text runs, one real edit) *)
+Example C12_merged_argument_example :
+  run_y mx_world mx_ops = fst (step mx_world (RemoveChild (0, 2) (0, 9)))
+  /\ WInv (run_y mx_world mx_ops)
+  /\ (forall s, doc_at (run_y mx_world mx_ops) 0 = Some s -> NavAgree s).
+Proof. exact mx_example_world. Qed.
+
+Print Assumptions C12_merged_argument_world_unchanged.
+Print Assumptions C12_run_y_erase.
+Print Assumptions C12_tree_inv_reachable_with_merged_argument.
+Print Assumptions C12_navigation_agrees_reachable_with_merged_argument.
+Print Assumptions C12_merged_argument_example.
